@@ -81,8 +81,36 @@ def finding_for(findings, prop, name):
     return None
 
 
-def run_native(prop, tier, seed, only=None, extra=None):
-    """bounded stand-in / engine-vs-CPython differential under the repository's interpreter"""
+def run_native(prop, tier, seed, only=None, extra=None, mod=None):
+    """bounded stand-in / engine-vs-CPython differential under the repository's interpreter.  With the contract module at hand
+    the native tests of the property run side by side, one interpreter each (same seeds, same cases as a serial run: every
+    test seeds its own generator from (seed, test name)); their reports are merged."""
+    if mod is not None and not extra:
+        tests = []
+        for item in mod.ITEMS:
+            for name, fn in (getattr(item, 'native', None) or []):
+                if not only or only in item.name:
+                    k = getattr(fn, 'shards', 1)
+                    tests += [('%s.%s' % (item.name, name), '%d/%d' % (i, k)) for i in range(k)]
+        if len(tests) > 1:
+            from concurrent.futures import ThreadPoolExecutor
+            with ThreadPoolExecutor(min(12, len(tests))) as ex:
+                parts = list(ex.map(lambda t: run_native(prop, tier, seed, only=only, extra=['--test', t[0], '--shard', t[1]]), tests))
+            out = dict(cases=0, distinct=0, failures=[], tests=[], skipped=[], crashed=None, bound=None)
+            for part in parts:
+                out['cases'] += part.get('cases', 0)
+                out['distinct'] += part.get('distinct', 0)
+                out['failures'] += part.get('failures', [])
+                out['tests'] += part.get('tests', [])
+                out['skipped'] += part.get('skipped') or []
+                out['bound'] = out['bound'] or part.get('bound')
+                if part.get('crashed') and not out['crashed']:
+                    out['crashed'] = part['crashed']
+            per = {}
+            for t in out['tests']:
+                per[t['test']] = per.get(t['test'], 0) + t['cases']
+            out['tests'] = [dict(test=k, cases=v) for k, v in sorted(per.items())]
+            return out
     cmd = ['/venv/bin/python', os.path.join(VERIF, 'harness', 'native.py'), prop, '--tier', tier, '--seed', str(seed)]
     if only:
         cmd += ['--only', only]
@@ -131,9 +159,16 @@ def main():
     if a.only:
         items = [i for i in items if a.only in mod.ITEMS[i].name]
     results = []
+    nat_future = None
     try:
         ctx = mp.get_context('fork')
         with ctx.Pool(min(a.jobs, max(1, len(items)))) as pool:
+            if not a.no_native:
+                # the bounded harness runs under the repository's interpreter, next to the proof obligations (the thread is
+                # started after the workers were forked)
+                from concurrent.futures import ThreadPoolExecutor
+                nat_pool = ThreadPoolExecutor(1)
+                nat_future = nat_pool.submit(run_native, prop, tier, seed, a.only, None, mod)
             results = pool.map(run_item, [(prop, i, tier) for i in items], chunksize=1)
     except Exception:
         traceback.print_exc()
@@ -141,7 +176,7 @@ def main():
     if a.no_native:
         native = dict(cases=0, failures=[], tests=[], crashed=None, not_run=True)
     else:
-        native = run_native(prop, tier, seed, only=a.only)
+        native = nat_future.result()
     return report(prop, tier, seed, mod, results, native, time.time() - t0)
 
 
@@ -198,6 +233,10 @@ def report(prop, tier, seed, mod, results, native, wall):
     # a finding that is listed but no longer fails is not an error; listed-as-fixed entries suppress nothing
     os.makedirs(os.path.join(OUT, 'replay', prop), exist_ok=True)
     os.makedirs(os.path.join(OUT, 'evidence'), exist_ok=True)
+    # replay files of earlier runs describe another tree: only what this run reports is kept
+    for old in os.listdir(os.path.join(OUT, 'replay', prop)):
+        if old.endswith('.json'):
+            os.remove(os.path.join(OUT, 'replay', prop, old))
     rc = 0
     lines = []
     # concrete failing inputs for failed obligations: ask the native harness for the function involved
